@@ -526,7 +526,7 @@ func (ev *SpecEval) callSpec(e *SExpr) SVal {
 			for i, b := range c.Bindings {
 				want := ev.rvalue(ev.eval(e.Args[i+2]))
 				// captured variables are bound by reference: compare the content of the captured cell
-				if ref, ok := b.(*Term); ok && ref.S == SRef {
+				if ref, ok := b.(*Term); ok && ref.S == SRef && c.Fn.Synthetic == "" {
 					if pt, ok := c.Fn.FreeVars[i].Type().Underlying().(*types.Pointer); ok {
 						cs = append(cs, eqValue(ev.cur.load(ref, pt.Elem()), want))
 						continue
